@@ -104,6 +104,15 @@ const HELPERS: &[(&str, &str)] = &[
     ("rest-id", "(define (rest-id . r) r)"),
     ("call-it", "(define (call-it f) (f))"),
     (
+        "make-late",
+        "(define (make-late) (define get ((lambda (dummy) (lambda () late)) 0)) (define late 5) (lambda () (set! late (+ late 1)) (get)))",
+    ),
+    ("make-lctr", "(define (make-lctr k) (let ((n k) (step 1)) (lambda () (set! n (+ n step)) n)))"),
+    (
+        "make-l2",
+        "(define (make-l2 k) (let* ((n k) (get (lambda () n)) (n (+ n 100))) (lambda () (set! n (+ n 1)) (+ n (get)))))",
+    ),
+    (
         "make-ictr",
         "(define (make-ictr k) (define n k) (define (bump) (set! n (+ n 1)) n) (bump) (lambda () (bump) n))",
     ),
@@ -1131,6 +1140,24 @@ impl Gen {
                 self.emit(sx, kind, vec![name], w);
                 true
             }
+            39 => {
+                // counters whose state lives in bindings made by internal defines evaluated late,
+                // by let, or by let* binding one name twice
+                if self.names_with(Role::Counter).len() >= 8 {
+                    return false;
+                }
+                let which = *self.rng.pick(&["make-late", "make-lctr", "make-l2"]);
+                self.need(which);
+                let c = self.fresh("c");
+                self.roles.insert(c.clone(), Role::Counter);
+                let sx = if which == "make-late" {
+                    list(vec![sym(which)])
+                } else {
+                    call(which, vec![int(self.small_lit())])
+                };
+                self.emit(list(vec![sym("define"), sym(&c), sx]), &format!("mk-counter-{}", which), vec![c], true);
+                true
+            }
             37 => {
                 // every closure of a list called once, through the list walker
                 let Some(name) = self.pick_name(Role::CounterList) else { return false };
@@ -1315,9 +1342,16 @@ impl Gen {
             4 => {
                 let vn = self.ensure_vec();
                 self.need("f0");
-                let v = self.rng.upto(22);
+                let v = self.rng.upto(28);
                 (
                     match v {
+                        // the wrong-typed argument comes after one that already decides the result
+                        22 => call("*", vec![int(0), Sx::Str("s".into())]),
+                        23 => call("*", vec![int(3), call("-", vec![int(2), int(2)]), quote(sym("x"))]),
+                        24 => call("+", vec![int(0), quote(sym("a"))]),
+                        25 => call("<", vec![int(2), int(1), quote(sym("a"))]),
+                        26 => call("=", vec![int(1), int(2), Sx::Str("x".into())]),
+                        27 => call(">=", vec![int(1), int(2), Sx::Bool(true)]),
                         0 => call("+", vec![int(1), quote(sym("a"))]),
                         1 => call("car", vec![int(5)]),
                         2 => call("vector-ref", vec![int(5), int(0)]),
@@ -1795,7 +1829,7 @@ pub fn generate_a(seed: u64, quick: bool, faults: bool) -> Value {
     let hash_seed = rng.next_u64() | 1;
     // swarm configuration
     let steps = if quick { rng.range(10, 40) } else { rng.range(10, 60) } as usize;
-    let nops = 39;
+    let nops = 40;
     let mut weights: Vec<u32> = (0..nops).map(|_| if rng.chance(1, 4) { 0 } else { rng.range(1, 6) as u32 }).collect();
     if weights.iter().all(|w| *w == 0) {
         weights[0] = 1;
